@@ -1305,6 +1305,22 @@ impl Sim {
                         11 => rf::Packet::Suback(rf::Suback { pid: p.pid, reasons: vec![0; p.n.max(1)], ..Default::default() }),
                         _ => rf::Packet::Pubcomp(rf::Ack { pid: p.pid, ..Default::default() }),
                     };
+                    // inbound and outbound exchanges number their packets independently: the "wrong" packet may happen
+                    // to be exactly the acknowledgement another pending exchange with the same identifier is waiting
+                    // for (e.g. a PUBCOMP chosen for an inbound QoS2 id that an outbound QoS2 publish uses too) - then
+                    // it is no violation at all and nothing is sent
+                    let wrong_code: u8 = match &wrong {
+                        rf::Packet::Puback(_) => 4,
+                        rf::Packet::Pubrec(_) => 5,
+                        rf::Packet::Pubcomp(_) => 7,
+                        rf::Packet::Suback(_) => 9,
+                        rf::Packet::Unsuback(_) => 11,
+                        _ => 0,
+                    };
+                    if pend.iter().any(|q| q.pid == p.pid && q.type_code == wrong_code) {
+                        self.tr.remapped += 1;
+                        return;
+                    }
                     rf::encode(version, &wrong, &d)
                 }
                 _ => rf::encode(version, &rf::Packet::Puback(rf::Ack { pid: 4242, ..Default::default() }), &d),
